@@ -72,7 +72,7 @@ Definition check_agree (c : cwcase) : list nat :=
 Definition zlen {A} (l : list A) : Z := Z.of_nat (length l).
 Definition zfirstn {A} (n : Z) (l : list A) : list A := firstn (Z.to_nat n) l.
 Definition zskipn {A} (n : Z) (l : list A) : list A := skipn (Z.to_nat n) l.
-Definition id_of (ids : list Z) (c : Z) : Z := nth (Z.to_nat c) ids (-1).
+Definition id_of (ids : list Z) (c : Z) : Z := if c <? 0 then -1 else nth (Z.to_nat c) ids (-1).
 
 Definition is_cancel_of (c : nat) (a : act) : option bool :=     (* Some deadline? *)
   match a with
@@ -151,7 +151,7 @@ Definition terminal_class (e : cerr) : bool :=
 Definition count_rst (i : Z) (l : list penv) : Z := zlen (filter (fun e => (p_id e =? i) && p_rst e) l).
 
 Definition pending_on (c : nat) (o : obs) : bool :=
-  existsb (fun p => (fst p =? Z.of_nat c) && ((snd p =? 1) || (snd p =? 2) || (snd p =? 3))) (o_pending o).
+  existsb (fun p => (fst p =? Z.of_nat c) && ((snd p =? 1) || (snd p =? 2) || (snd p =? 3) || (snd p =? 4))) (o_pending o).
 
 Definition hctx_live (c : Z) (so : sobs) : bool :=
   existsb (fun p => (fst p =? c) && negb (snd p)) (so_hctx so).
@@ -361,13 +361,22 @@ Definition unary_payloads (steps : list step) : list (nat * Z) :=
      | _ :: t => go t n
      end) (acts_of steps) 0%nat.
 
-Definition unary_ok (steps : list step) (cb : nat * Z) : bool :=
+(* a unary call got its answer, or - cancelled / past its deadline - its context's error; but NOT the context's error when
+   its reply had been handed to the client's transport before the cancellation / the deadline (the probe with a deadline:
+   a read loop held for ever by an abandoned stream must not pass as "DeadlineExceeded") *)
+Definition unary_ok (steps : list step) (ids : list Z) (cb : nat * Z) : bool :=
   let (c, b) := cb in
   let rets := filter (fun e => match e with EvUnaryRet d _ => Nat.eqb c d | _ => false end) (events_of steps) in
   let cancelled := first_some (is_cancel_of c) (acts_of steps) in
+  let i := id_of ids (Z.of_nat c) in
+  let delivered_before := match split_cancel c [] steps with
+                          | Some (before, _, _, _) =>
+                              existsb (fun a => match a with ADeliver e => eid e =? i | _ => false end) (acts_of before)
+                          | None => false
+                          end in
   match rets with
   | [EvUnaryRet _ (UOk x)] => x =? b
-  | [EvUnaryRet _ (UErr e)] => match cancelled with Some dl => ctx_class dl e | None => false end
+  | [EvUnaryRet _ (UErr e)] => match cancelled with Some dl => ctx_class dl e && negb delivered_before | None => false end
   | _ => false
   end.
 
@@ -382,7 +391,7 @@ Definition spec_c11 (c : cwcase) : list nat :=
           if hard_faulty steps || wfault_hits false (acts_of steps) || negb drained then []
           else
             (if (match o_pending (st_co lst) with [] => true | _ => false end)
-                && forallb (unary_ok steps) (unary_payloads steps) then [] else [2%nat]) ++
+                && forallb (unary_ok steps ids) (unary_payloads steps) then [] else [2%nat]) ++
             (if (so_sreg so =? -1) || (match o_reg (st_co lst) with None => true | Some _ => false end)
              then [4%nat] else [])
       end
